@@ -38,3 +38,22 @@ Fixpoint fcl_maxdiff (a b : list FC) : float :=
   | [], [] => 0
   | _, _ => infinity
   end.
+
+(* ---- comparison up to a global phase ---- *)
+Definition fc_norm2 (a : FC) : float := fst a * fst a + snd a * snd a.
+Definition fc_div (a b : FC) : FC :=          (* a / b *)
+  let n := fc_norm2 b in
+  ((fst a * fst b + snd a * snd b) / n, (snd a * fst b - fst a * snd b) / n).
+(* the entry of largest modulus in b, with the corresponding entry of a *)
+Fixpoint fcl_pivot (a b : list FC) (best : FC * FC) : FC * FC :=
+  match a, b with
+  | x :: a', y :: b' => fcl_pivot a' b' (if PrimFloat.ltb (fc_norm2 (snd best)) (fc_norm2 y) then (x, y) else best)
+  | _, _ => best
+  end.
+Definition fcl_close_phase (tol : float) (a b : list FC) : bool :=
+  let '(x, y) := fcl_pivot a b ((0, 0), (0, 0)) in
+  if PrimFloat.leb (fc_norm2 y) 0x1p-60 then fcl_close tol a b
+  else let f := fc_div x y in
+       f_close tol (fc_norm2 f) 1 && fcl_close tol a (map (fc_mul f) b).
+Definition fcll_close_phase (tol : float) (a b : list (list FC)) : bool :=
+  Nat.eqb (length a) (length b) && fcl_close_phase tol (concat a) (concat b).
